@@ -236,6 +236,21 @@ def rule_segment_width(ctx: Ctx, clause: str = "C03.13") -> RuleResult:
             for t in walk_no_nested(node.ast):
                 if not (isinstance(t, ast.Tuple) and len(t.elts) == 3 and isinstance(t.ctx, ast.Load) and isinstance(t.elts[0], ast.Name)):
                     continue
+                # an *insert* segment (columns, offset, bytes to insert): the third element is the encoded text itself,
+                # its width has to be measured on exactly those bytes - calc_width(X, 0, len(X)) - because the column
+                # count of a character depends on the byte encoding it was encoded for
+                third = t.elts[2]
+                if isinstance(third, ast.Name):
+                    tdefs = [dv for dv, _h, _d in du.reaching(third.id, node) if isinstance(dv, ast.AST)]
+                    if tdefs and all((isinstance(dv, ast.Call) and isinstance(dv.func, ast.Attribute) and dv.func.attr == "encode") or (isinstance(dv, ast.Constant) and isinstance(dv.value, bytes)) for dv in tdefs):
+                        for v, how, dn in du.reaching(t.elts[0].id, node):
+                            if not isinstance(v, ast.AST):
+                                continue
+                            good = isinstance(v, ast.Call) and callee_name(v) == "calc_width" and len(v.args) == 3 and ast.unparse(v.args[0]) == third.id and ast.unparse(v.args[1]) == "0" and ast.unparse(v.args[2]) == f"len({third.id})"
+                            rr.inst(f"{short(fi)}:insert {norm(t, 40)}<-{norm(v, 40)}", True, {"insert_segment": norm(t, 50), "measured": norm(v, 50)} if len(rr.samples) < 6 else None)
+                            if not good:
+                                rr.add(finding("PAIR", fi, dn.stmt, f"the insert segment `{norm(t, 50)}` declares `{norm(v, 50)}` columns for the bytes `{third.id}`: the width is not measured on the inserted bytes themselves (calc_width({third.id}, 0, len({third.id}))), so in an encoding where the mark is a double-width character (euc-jp '…') the line is one column wider than declared and the canvas overflows", construct=f"insert segment width not measured on the inserted bytes: {norm(v, 50)}"))
+                        continue
                 for v, how, dn in du.reaching(t.elts[0].id, node):
                     if not (isinstance(v, ast.Call) and callee_name(v) == "calc_width" and len(v.args) == 3):
                         continue
@@ -324,6 +339,15 @@ def rule_segment_positive(ctx: Ctx, clause: str = "C03.15") -> RuleResult:
                     # under `is_wide_char(...)`
                     wide = [tst for tst in cfg.nodes if tst.kind == "test" and ast.unparse(tst.ast).startswith("is_wide_char(")]
                     ok = any(all(st not in ExcEngine._reach_without_edge(cfg, tst, "T") for st in starts) for tst in wide) and cfg.entry not in starts
+                if not ok:
+                    # guarded through a flag: `flag = True` only where the width was tested, segment built under `if flag:`
+                    for ft in cfg.nodes:
+                        if ft.kind != "test" or not isinstance(ft.ast, ast.Name) or node in ExcEngine._reach_without_edge(cfg, ft, "T"):
+                            continue
+                        fdefs = [(v, dn) for v, how, dn in du.reaching(ft.ast.id, ft) if isinstance(v, ast.AST)]
+                        trues = [dn for v, dn in fdefs if not (isinstance(v, ast.Constant) and v.value is False)]
+                        if fdefs and all(isinstance(v, ast.Constant) and isinstance(v.value, bool) for v, dn in fdefs) and trues and all(any(pos_edges.get(pt) == "T" and dn not in ExcEngine._reach_without_edge(cfg, pt, "T") for pt in pos_edges) for dn in trues):
+                            ok = True
                 rr.inst(f"{short(fi)}:{norm(t, 40)}@{node.lineno}", True, {"segment": f"{short(fi)}: {norm(t, 50)}", "guarded": ok} if len(rr.samples) < 6 else None)
                 if not ok:
                     rr.add(finding("GUARD", fi, node.stmt, f"the text segment `{norm(t, 50)}` is built without a test that `{wtxt}` is positive: for a run of zero-width characters only (or when trimming leaves nothing of a double-width character) the width is 0 and LayoutSegment raises ValueError instead of the text simply not being shown", construct=f"segment {norm(t, 50)} without positivity test"))
@@ -360,11 +384,13 @@ def run(ctx: Ctx):
 
 _T = "urwid/text_layout.py"
 MUTANTS = [
+    Mut("ellipsis-width-measured-on-the-str", _T, "StandardTextLayout._calculate_trimmed_segments", "        ellipsis_width = calc_width(ellipsis_char, 0, len(ellipsis_char))\n        while", "        ellipsis_width = _get_width(ellipsis_string)\n        while", "PAIR|text_layout.StandardTextLayout._calculate_trimmed_segments|insert segment width"),
+    Mut("ellipsis-inserted-without-width-test", _T, "StandardTextLayout._calculate_trimmed_segments", "if wrap == \"ellipsis\" and screen_columns > width and ellipsis_width:", "if wrap == \"ellipsis\" and screen_columns > width:", "GUARD|text_layout.StandardTextLayout._calculate_trimmed_segments"),
     Mut("clip-line-of-zero-width-chars", _T, "StandardTextLayout._calculate_trimmed_segments", "            if idx != end_off and screen_columns > 0:", "            if idx != end_off:", "GUARD|text_layout.StandardTextLayout._calculate_trimmed_segments"),
     Mut("space-wrap-zero-width-prefix", _T, "StandardTextLayout.calculate_text_segments", "                    if idx != prev and screen_columns > 0:", "                    if idx != prev:", "GUARD|text_layout.StandardTextLayout.calculate_text_segments"),
     Mut("subseg-empty-remainder", _T, "LayoutSegment.subseg", "            if end - start - pad_left - pad_right > 0:\n                lines.append((end - start - pad_left - pad_right, spos, epos))", "            lines.append((end - start - pad_left - pad_right, spos, epos))", "GUARD|text_layout.LayoutSegment.subseg"),
     Mut("wide-wrap-width-of-sibling-branch", _T, "StandardTextLayout.calculate_text_segments", "                    screen_columns = calc_width(text, idx, next_char)", "                    screen_columns = calc_width(text, idx, prev)", "PAIR|text_layout.StandardTextLayout.calculate_text_segments"),
-    Mut("pad-right-carried-to-next-line", _T, "StandardTextLayout._calculate_trimmed_segments", "                trimmed = False\n                end_off = nl_pos\n                pad_right = 0\n", "                trimmed = False\n                end_off = nl_pos\n", "LOOPFRESH|text_layout.StandardTextLayout._calculate_trimmed_segments", also=[("        ellipsis_char = ellipsis_string.encode(encoding)\n\n        idx = 0\n", "        ellipsis_char = ellipsis_string.encode(encoding)\n\n        idx = 0\n        pad_right = 0\n")]),
+    Mut("pad-right-carried-to-next-line", _T, "StandardTextLayout._calculate_trimmed_segments", "                trimmed = False\n                end_off = nl_pos\n                pad_right = 0\n", "                trimmed = False\n                end_off = nl_pos\n", "LOOPFRESH|text_layout.StandardTextLayout._calculate_trimmed_segments", also=[("            ellipsis_width = calc_width(ellipsis_char, 0, len(ellipsis_char))\n\n        idx = 0\n", "            ellipsis_width = calc_width(ellipsis_char, 0, len(ellipsis_char))\n\n        idx = 0\n        pad_right = 0\n")]),
     Mut("ellipsis-segment-one-column-short", _T, "StandardTextLayout._calculate_trimmed_segments", "screen_columns = width - ellipsis_width - pad_right", "screen_columns = width - 1 - pad_right", "PAIR|text_layout.StandardTextLayout._calculate_trimmed_segments"),
     Mut("ellipsis-segment-ignores-pad", _T, "StandardTextLayout._calculate_trimmed_segments", "screen_columns = width - ellipsis_width - pad_right", "screen_columns = width - ellipsis_width", "PAIR|text_layout.StandardTextLayout._calculate_trimmed_segments"),
     Mut("twin-ellipsis-segment-reordered", _T, "StandardTextLayout._calculate_trimmed_segments", "screen_columns = width - ellipsis_width - pad_right", "screen_columns = width - pad_right - ellipsis_width", twin=True),
